@@ -5,7 +5,9 @@ package c01
 import (
 	"bytes"
 	"fmt"
+	"io"
 	"sync"
+	"sync/atomic"
 	"testing"
 	"time"
 
@@ -355,4 +357,188 @@ func TestDNSEveryWriteLength(t *testing.T) {
 			failed = false
 		}()
 	}
+}
+
+// ---- several logical connections at the same time ----------------------------------------------------------------
+
+type concDesc struct {
+	Config string  `json:"config"`
+	Conns  []cspec `json:"connections"`
+}
+
+type cspec struct {
+	LenUp   int    `json:"len_up"`
+	LenDown int    `json:"len_down"`
+	UpParts []int  `json:"up_parts,omitempty"`
+	Key     uint32 `json:"key"`
+}
+
+func putU32(b []byte, v uint32) {
+	b[0], b[1], b[2], b[3] = byte(v>>24), byte(v>>16), byte(v>>8), byte(v)
+}
+func getU32(b []byte) uint32 {
+	return uint32(b[0])<<24 | uint32(b[1])<<16 | uint32(b[2])<<8 | uint32(b[3])
+}
+
+// runConcurrent: "for every logical connection" also holds while other logical connections of the same pair move data.
+// Every connection announces itself with a 16-byte header (index, lengths, key) so that the target knows what to expect
+// on it and what to send back; all connections start at the same instant.
+func runConcurrent(d concDesc) (problem string, inconclusive bool) {
+	var c config
+	for _, x := range configs {
+		if x.name == d.Config {
+			c = x
+		}
+	}
+	timeout := 40 * time.Second
+	if c.carrier == vlib.CarDNS {
+		timeout = 120 * time.Second
+	}
+	var mu sync.Mutex
+	tgtProblems := map[uint32]string{}
+	tgtDone := make([]chan struct{}, len(d.Conns))
+	tgtOnce := make([]sync.Once, len(d.Conns))
+	seen := make([]int32, len(d.Conns))
+	for i := range tgtDone {
+		tgtDone[i] = make(chan struct{})
+	}
+	handler := func(tc *vlib.TargetConn) {
+		defer tc.Conn.Close()
+		tc.Conn.SetDeadline(time.Now().Add(timeout))
+		hdr := make([]byte, 16)
+		if _, err := io.ReadFull(tc.Conn, hdr); err != nil {
+			return
+		}
+		idx, lu, ld, key := getU32(hdr), int(getU32(hdr[4:])), int(getU32(hdr[8:])), getU32(hdr[12:])
+		if int(idx) >= len(d.Conns) || lu != d.Conns[idx].LenUp || ld != d.Conns[idx].LenDown || key != d.Conns[idx].Key || atomic.AddInt32(&seen[idx], 1) != 1 {
+			mu.Lock()
+			tgtProblems[0] = fmt.Sprintf("a target connection starts with %s, which no application wrote as the start of its connection (or wrote once only)", vlib.Hex(hdr))
+			mu.Unlock()
+			return
+		}
+		var wg sync.WaitGroup
+		wg.Add(1)
+		go func() {
+			defer wg.Done()
+			tc.Conn.Write(vlib.PRF(uint64(key)+1, 0, ld))
+		}()
+		got := make([]byte, lu)
+		n, err := io.ReadFull(tc.Conn, got)
+		want := vlib.PRF(uint64(key), 0, lu)
+		if off := vlib.FirstDiff(got[:n], want); off != -1 {
+			mu.Lock()
+			tgtProblems[idx] = fmt.Sprintf("target of connection %d received %d of %d bytes, first difference at offset %d (%v)", idx, n, lu, off, err)
+			mu.Unlock()
+		}
+		wg.Wait()
+		tgtOnce[idx].Do(func() { close(tgtDone[idx]) })
+		// wait for the application to close
+		tc.Conn.Read(make([]byte, 1))
+	}
+	p, _, done, err := getPair(c, false, func(tgt *vlib.Target) { tgt.DrainNew(); tgt.SetHandler(handler) })
+	if err != nil {
+		if vlib.IsBindError(err) {
+			return "", true
+		}
+		return "pair start failed: " + err.Error(), false
+	}
+	failed := true
+	defer func() { done(failed) }()
+	appProblems := make([]string, len(d.Conns))
+	var wg sync.WaitGroup
+	start := make(chan struct{})
+	for i, cs := range d.Conns {
+		wg.Add(1)
+		go func(i int, cs cspec) {
+			defer wg.Done()
+			app, err := p.Dial("data")
+			if err != nil {
+				appProblems[i] = "dial: " + err.Error()
+				return
+			}
+			defer app.Close()
+			app.SetDeadline(time.Now().Add(timeout))
+			hdr := make([]byte, 16)
+			putU32(hdr, uint32(i))
+			putU32(hdr[4:], uint32(cs.LenUp))
+			putU32(hdr[8:], uint32(cs.LenDown))
+			putU32(hdr[12:], cs.Key)
+			<-start
+			var w sync.WaitGroup
+			w.Add(1)
+			go func() {
+				defer w.Done()
+				if err := vlib.WriteParts(app, append(hdr, vlib.PRF(uint64(cs.Key), 0, cs.LenUp)...), cs.UpParts, 0); err != nil {
+					appProblems[i] = fmt.Sprintf("connection %d: write: %v", i, err)
+				}
+			}()
+			got := make([]byte, cs.LenDown)
+			n, rerr := io.ReadFull(app, got)
+			if off := vlib.FirstDiff(got[:n], vlib.PRF(uint64(cs.Key)+1, 0, cs.LenDown)); off != -1 {
+				appProblems[i] = fmt.Sprintf("application of connection %d received %d of %d bytes, first difference at offset %d (%v)", i, n, cs.LenDown, off, rerr)
+			}
+			w.Wait()
+			// keep the connection until the target has everything
+			select {
+			case <-tgtDone[i]:
+			case <-time.After(timeout):
+				if appProblems[i] == "" {
+					appProblems[i] = fmt.Sprintf("connection %d: target did not receive the %d bytes within %v", i, cs.LenUp, timeout)
+				}
+			}
+		}(i, cs)
+	}
+	close(start)
+	wg.Wait()
+	mu.Lock()
+	defer mu.Unlock()
+	for i := range d.Conns {
+		if m := tgtProblems[uint32(i)]; m != "" {
+			return m + "; log tail: " + fmt.Sprint(vlib.Tap.Tail(4)), false
+		}
+		if appProblems[i] != "" {
+			return appProblems[i] + "; log tail: " + fmt.Sprint(vlib.Tap.Tail(4)), false
+		}
+	}
+	failed = false
+	return "", false
+}
+
+func TestConcurrentTransfers(t *testing.T) {
+	budget := int32(vlib.Pick(40, 600))
+	var ran int32
+	rapid.Check(t, func(rt *rapid.T) {
+		if atomic.AddInt32(&ran, 1) > budget {
+			return
+		}
+		c := configs[rapid.IntRange(0, len(configs)-1).Draw(rt, "config")]
+		max := vlib.Pick(600*1024, 3*1024*1024)
+		if c.carrier == vlib.CarDNS {
+			if rapid.IntRange(0, 3).Draw(rt, "dnsRare") != 0 {
+				c = configs[0]
+			} else {
+				max = 16 * 1024
+			}
+		}
+		d := concDesc{Config: c.name}
+		k := rapid.IntRange(2, 5).Draw(rt, "connections")
+		for i := 0; i < k; i++ {
+			cs := cspec{Key: rapid.Uint32().Draw(rt, "key")}
+			cs.LenUp = drawLen(rt, "up", max)
+			cs.LenDown = drawLen(rt, "down", max)
+			cs.UpParts = drawParts(rt, "upParts", cs.LenUp+16)
+			d.Conns = append(d.Conns, cs)
+		}
+		vlib.Tap.Reset()
+		problem, inconclusive := runConcurrent(d)
+		if inconclusive {
+			vlib.Rec.Inconclusive("bind")
+			return
+		}
+		vlib.Rec.Case(fmt.Sprintf("concurrent %+v", d), true, []string{"cfg:" + c.name, "concurrent-connections", fmt.Sprintf("connections:%d", k)}, func() interface{} { return d })
+		if problem != "" {
+			vlib.Rec.Violation(map[string]interface{}{"property": "C01", "concurrent_case": d, "problem": problem})
+			rt.Fatalf("C01 concurrent %+v: %s", d, problem)
+		}
+	})
 }
